@@ -110,13 +110,13 @@ prop(
 
 prop(
     "C04",
-    rules=["C04-R2", "C04-R3", "C04-R4", "C04-R5", "X-WMC", "X-EXT@dropper", "C04-R1", "C04-R7"],
+    rules=["C04-R2", "C04-R3", "C04-R4", "C04-R5", "X-WMC", "X-EXT@dropper", "C04-R1", "C04-R7", "C04-R8"],
     mir_rules=[S.rule_remover, S2.rule_dropper, S2.rule_push_guards, S2.rule_cloner, S2.rule_who_may, S.rule_extent, S2.rule_dataptr_primitives, S2.rule_forbidden_calls, S2.rule_alloc_discipline],
     floors={"C04-R1": 15, "C04-R2": lambda c: n_storages(c), "C04-R3": lambda c: 5 * n_storages(c), "C04-R4": lambda c: 5 * n_storages(c), "C04-R5": lambda c: n_storages(c), "X-WMC": lambda c: 6 * n_storages(c)},
     explanation="Static analysis. Decides: X-WMC the ownership primitives (write, swap_remove, drop_to, dealloc, grow) are called only by the functions whose role owns them; "
     "C04-R2 the remover moves exactly one value out of each of the N+1 arrays and pairs it with one len decrement; C04-R3 Drop drops cells [0,len) of each column exactly once before freeing each array once with the tracked capacity, "
     "DataPtr has no Drop impl, and no second drop is reachable from the unwind edge of a panicking cell drop; C04-R4 a refused create_within_capacity returns its argument untouched on an effect-free path; "
-    "C04-R5/C13-R2 clone clones each live cell exactly once into a fresh array; "
+    "C04-R5/C13-R2 clone clones each live cell exactly once into a fresh array; C04-R8 clone takes every column guard before its first allocation, so its documented borrow panic cannot abandon values it has already cloned; "
     "C04-R1 allocator discipline of DataPtr (GlobalAlloc contract): alloc only with the array layout of the capacity argument on a path with sized T and capacity != 0, realloc/dealloc only of self.0 with the array layout of the capacity it was allocated with on a path where that capacity != 0, "
     "the no-op paths only for zero-sized T or capacity 0, the allocator's (null-checked) result is what gets installed, nobody but DataPtr calls the allocator, swap_remove never drops; "
     "C04-R7 no call to mem::forget, ManuallyDrop::new, *::leak, RefCell::as_ptr, UnsafeCell::get, *::into_raw or zeroed anywhere in gecs or in the specimen expansions.",
